@@ -109,6 +109,9 @@ def rule_advance(ctx):
                 key = first[-1]['truth'] if first else None
                 d[key] = 'it-1' if (v[0] == 'bin' and v[1] == 'Sub' and strip_refs(v[2]) == it and is_const(v[3], 1)) else 'it' if v == it else '?'
             sk = 'FIRST:%s,else:%s' % (d.get(True), d.get(False))
+        elif a[0] == 'bin' and a[1] == 'Sub' and strip_refs(a[2]) == it and q.is_call(strip_refs(a[3]), 'from') and strip_refs(strip_refs(a[3])[2][0]) == ('cparam', 'FIRST') \
+                and 'bool' in strip_refs(a[3])[1] + str(f.blocks[strip_refs(a[3])[3][1]]['term']['callee'].get('args')):
+            sk = 'FIRST:it-1,else:it'       # it - u64::from(FIRST): true is 1, false is 0
         else:
             sk = '?'
         skeletons[nm] = sk
@@ -545,6 +548,16 @@ def rule_regret_update(ctx):
                     e = g.call_expr(t, bi)
                     v = strip_refs(e[2][1])
                     sub_ok = v[0] == 'field' and v[2] == '1' and strip_refs(v[1]) == res
+                tr = t['callee'].get('trait') or ''
+                if tr.startswith('solve::') and len(t['args']) == 2:
+                    # a method of a crate-local trait on the entry: subtraction if every impl of it subtracts
+                    mname = short(t['callee'].get('def') or p)
+                    impls = [h for n_, h in lib.fns.items() if n_.endswith('>::' + mname) and ((' as %s>' % tr) in n_ or h.j.get('impl_trait') == tr)]
+                    subtracts = bool(impls) and all(any(short(pp) == 'fetch_sub' for _, _, pp in h.calls()) or
+                                                    any(strip_refs(rhs)[0] == 'bin' and strip_refs(rhs)[1] == 'Sub' and norm(strip_refs(rhs)[2]) == norm(pl) for _, _, pl, rhs in q.stores(h)) for h in impls)
+                    if subtracts:
+                        v = strip_refs(g.call_expr(t, bi)[2][1])
+                        sub_ok = sub_ok or (v[0] == 'field' and v[2] == '1' and strip_refs(v[1]) == res)
             for bi, st, pl, rhs in q.stores(g):
                 r = strip_refs(rhs)
                 if r[0] == 'bin' and r[1] == 'Sub' and norm(r[2]) == norm(pl):
